@@ -23,7 +23,7 @@ F = ["packets.base.ResponsePacket.is_valid", "packets.base.ResponsePacket.error"
      "packets.util.get_extended_status", "packets.logix.MultiServiceResponsePacket._parse_reply", "packets.logix.ReadTagFragmentedResponsePacket._parse_reply",
      "packets.ethernetip.RegisterSessionResponsePacket", "packets.ethernetip.ListIdentityResponsePacket", "logix_driver.LogixDriver._send_requests"]
 MUST_PARTIAL = (0x52, 0x53, 0x55)
-MAY_PARTIAL = (0x52, 0x53, 0x55, 0x0A, 0x03, 0x4C)
+MAY_PARTIAL = (0x52, 0x53, 0x55, 0x0A, 0x03)
 SESSION = 0x11223344
 
 if chplugin.SYMBOLIC:
@@ -84,8 +84,9 @@ def _mk_status(kind):
                 if nx != 0:
                     return "ok"     # success replies carry no additional status; either reading of such a frame is accepted
                 return "ok" if truthy and err is None else "success-rejected:" + str(err)
-            if st == 6 and kind not in ("read", "write", "read-modify-write"):
-                # Read Tag / Write Tag / Read-Modify-Write never continue: for them status 6 is an error like any other (falls through)
+            if st == 6 and svc not in (0x4C, 0x4D, 0x4E):
+                # the classification goes by the REPLY service: Read Tag / Write Tag / Read-Modify-Write replies never continue, for them
+                # status 6 is an error like any other (falls through)
                 if svc in MUST_PARTIAL and kind in ("generic-connected", "read-fragmented", "write-fragmented", "send-unit-data") and nx == 0:
                     return "ok" if truthy else "partial-transfer-rejected"
                 if svc in MAY_PARTIAL:
